@@ -208,6 +208,18 @@ def check_attribute_gate(ctx):
         for t, lab in dom.guards_of(g, r):
             if t.kind == 'test' and lab == 'T' and unparse(t.ast) in (f"{fn}.name == {name_p}", f"{name_p} == {fn}.name"):
                 good = True
+    # the same selection written as an index lookup: ATTRS[[a.name for a in ATTRS].index(name)](value)
+    for r in gates:
+        fexpr = r.ast.value.func
+        if isinstance(fexpr, ast.Subscript) and isinstance(fexpr.slice, ast.Call) and isinstance(fexpr.slice.func, ast.Attribute) and fexpr.slice.func.attr == 'index' \
+                and [unparse(a) for a in fexpr.slice.args] == [name_p]:
+            names_expr = fexpr.slice.func.value
+            if isinstance(names_expr, ast.Name):
+                ds = dom.reaching_defs(g, names_expr.id, r)
+                names_expr = ds[0].ast.value if len(ds) == 1 and isinstance(ds[0].ast, ast.Assign) else names_expr
+            if isinstance(names_expr, ast.ListComp) and len(names_expr.generators) == 1 and not names_expr.generators[0].ifs and \
+                    unparse(names_expr.elt) == f"{unparse(names_expr.generators[0].target)}.name" and unparse(names_expr.generators[0].iter) == unparse(fexpr.value):
+                good = True
     res.check(good, 'R-DOM.attribute-gate', f.fq, "a declared name is validated by calling the matching attribute (its simple type) on the value",
               key='R-DOM.attribute-gate|value-check')
     others = [n for n in g.stmt_nodes() if n.kind == 'return' and n not in gates]
@@ -242,9 +254,10 @@ def required_attributes(ctx):
                 src = unparse(it)
                 if isinstance(it, ast.Name):
                     src = ' '.join(unparse(d.ast.value) for d in dom.assignments_to(g, it.id) if isinstance(d.ast, ast.Assign))
-                if 'self.TYPE.get_xsd_attributes()' in src and '.is_required' in src:
+                tv = unparse(t.stmt.target)
+                filtered_in_guard = any(t2.kind == 'test' and unparse(t2.ast) == f"{tv}.is_required" and lab2 == 'T' for t2, lab2 in guards)
+                if 'self.TYPE.get_xsd_attributes()' in src and ('.is_required' in src or filtered_in_guard):
                     have_loop = True
-                    tv = unparse(t.stmt.target)
                 else:
                     extra.append(f"for .. in {src}")
                 continue
